@@ -3,6 +3,7 @@
 //@harness name=sweep_keeps_black_frees_white props=C01,C16 obligation=Heap/sweep_keeps_black_reports_white_bytes kind=bounded bound="a heap of 2 objects with symbolic colours in {Black, White}; loops unwound 5" doc="collector core, bounded: Heap::sweep retains exactly the black objects (in order) and returns the byte size of the white ones"
 //@harness name=mark_roots_greys_rooted props=C01 obligation=Heap/mark_roots_greys_exactly_rooted kind=bounded bound="a heap of 2 leaf objects with symbolic root counts and colours; loops unwound 5" doc="collector core, bounded: after Heap::mark_roots an object is grey iff its root count is positive (leaf objects), whatever colour it had before"
 //@harness name=allocate_root_counts_one props=C01,C16 obligation=Heap/allocate_root_and_unique_start_with_one_root kind=bounded configs=off bound="an empty Heap in the optimised configuration (no collection below the 64 KiB threshold); loops unwound 5" doc="Heap::allocate_root / allocate_unique return a handle to a new white box that the heap owns, with root count exactly 1, and account size_of::<T>() bytes; dropping the handle brings the count to 0"
+//@harness name=collect_keeps_reachable_frees_rest props=C01,C16 obligation=Heap/collect_keeps_exactly_the_reachable_and_paces_on_the_survivors kind=bounded bound="a heap of 3 objects a, b, c with one reference b -> a, symbolic root counts and symbolic initial colours in {White, Black}; loops unwound 6" doc="collector core composed, bounded: after Heap::collect exactly the objects reachable from a rooted object survive (b iff rooted, c iff rooted, a iff rooted or b rooted), bytes_allocated is the survivors' size and collection_threshold is twice that"
 use super::*;
 
 /// A heap object for the collector harnesses: blackening it may re-grey another object's colour cell
@@ -128,5 +129,47 @@ fn allocate_root_counts_one() {
     drop(r);
     assert!(g.gc_box().num_roots.get() == 0);
     std::mem::forget(u);
+    std::mem::forget(heap);
+}
+
+#[kani::proof]
+#[kani::unwind(6)]
+fn collect_keeps_reachable_frees_rest() {
+    let ra: bool = kani::any();
+    let rb: bool = kani::any();
+    let rc: bool = kani::any();
+    let (ka, kb, kc): (bool, bool, bool) = (kani::any(), kani::any(), kani::any());
+    let col = |k: bool| if k { Colour::Black } else { Colour::White };
+    let a = node_box(col(ka), ra as usize, false);
+    unsafe { TARGET = Some(gc_of(&a)); }
+    let b = node_box(col(kb), rb as usize, true); // b references a
+    let c = node_box(col(kc), rc as usize, false);
+    let a_ptr = &*a as *const GcBox<Node> as *const u8;
+    let b_ptr = &*b as *const GcBox<Node> as *const u8;
+    let c_ptr = &*c as *const GcBox<Node> as *const u8;
+    let mut objects: Vec<Pin<Box<GcBox<dyn GcManaged>>>> = Vec::with_capacity(3);
+    objects.push(a);
+    objects.push(b);
+    objects.push(c);
+    let sz = mem::size_of::<Node>();
+    let mut heap = Heap { collection_threshold: usize::MAX, bytes_allocated: 3 * sz, objects };
+    heap.collect();
+    let keep_a = ra || rb;
+    let kept = (keep_a as usize) + (rb as usize) + (rc as usize);
+    assert!(heap.objects.len() == kept);
+    assert!(heap.bytes_allocated == kept * sz);
+    assert!(heap.collection_threshold == 2 * kept * sz);
+    let has = |p: *const u8, h: &Heap| {
+        let mut found = false;
+        let mut i = 0;
+        while i < h.objects.len() {
+            if h.objects[i].as_ref().get_ref() as *const GcBox<dyn GcManaged> as *const u8 == p { found = true; }
+            i += 1;
+        }
+        found
+    };
+    assert!(has(a_ptr, &heap) == keep_a);
+    assert!(has(b_ptr, &heap) == rb);
+    assert!(has(c_ptr, &heap) == rc);
     std::mem::forget(heap);
 }
